@@ -18,6 +18,7 @@ package vanguard
 
 import (
 	"bytes"
+	"sync"
 	"sync/atomic"
 )
 
@@ -33,6 +34,7 @@ var VerifPoolPoison atomic.Bool
 const verifPoolHooked = true
 
 func verifOnPoolGet(buf *bytes.Buffer) {
+	verifCheckOnGet(buf)
 	if f := VerifPoolObserver.Load(); f != nil {
 		(*f)('G', buf)
 	}
@@ -53,5 +55,66 @@ func verifOnPoolPut(buf *bytes.Buffer) {
 		if length <= len(data) {
 			buf.Write(data[:length])
 		}
+		verifRecordRelease(buf)
 	}
+}
+
+// While poisoning is on, every released buffer is remembered as it was put
+// back (length, capacity, all poison), so that a write through a stale
+// reference shows whatever the scheduler does next.
+type verifRelease struct{ length, capacity int }
+
+var verifReleased = struct {
+	sync.Mutex
+	bufs       map[*bytes.Buffer]verifRelease
+	lateWrites int
+}{bufs: map[*bytes.Buffer]verifRelease{}}
+
+func verifIntact(buf *bytes.Buffer, rel verifRelease, checkLen bool) bool {
+	if buf.Cap() != rel.capacity || (checkLen && buf.Len() != rel.length) {
+		return false
+	}
+	data := buf.Bytes()[:buf.Len()]
+	data = data[:cap(data)]
+	for _, b := range data {
+		if b != 0xDD {
+			return false
+		}
+	}
+	return true
+}
+
+func verifRecordRelease(buf *bytes.Buffer) {
+	verifReleased.Lock()
+	defer verifReleased.Unlock()
+	verifReleased.bufs[buf] = verifRelease{length: buf.Len(), capacity: buf.Cap()}
+}
+
+func verifCheckOnGet(buf *bytes.Buffer) {
+	verifReleased.Lock()
+	defer verifReleased.Unlock()
+	if rel, ok := verifReleased.bufs[buf]; ok {
+		// Get has reset the length; the bytes are untouched by that
+		if !verifIntact(buf, rel, false) {
+			verifReleased.lateWrites++
+		}
+		delete(verifReleased.bufs, buf)
+	}
+}
+
+// VerifPoolCheckReleased returns the number of buffers that were written to,
+// re-sliced or grown after they had been put back into the pool (while
+// VerifPoolPoison was on) and forgets what it has seen so far.
+func VerifPoolCheckReleased() int {
+	verifReleased.Lock()
+	defer verifReleased.Unlock()
+	n := verifReleased.lateWrites
+	for buf, rel := range verifReleased.bufs {
+		if !verifIntact(buf, rel, true) {
+			n++
+		}
+	}
+	verifReleased.bufs = map[*bytes.Buffer]verifRelease{}
+	verifReleased.lateWrites = 0
+	return n
 }
